@@ -37,6 +37,47 @@ type c09Op struct {
 type c09In struct {
 	Clients [][]c09Op `json:"clients"`
 	Initial []string  `json:"initial"` // files that exist at the start (content "init:<path>")
+	BigPath string    `json:"big_path,omitempty"` // every value of this file (also the initial one) is padded past 64 KiB
+}
+
+// c09Pad: values of the big file are padded to 65 000 - 72 000 bytes with a byte that
+// depends on the value, so a mixture of two values is never a complete value.
+func c09Pad(v string) string {
+	h := strHash(v)
+	return v + strings.Repeat(string(rune('a'+h%26)), 65000+int(h%7000))
+}
+
+func (in *c09In) initVal(path string) string {
+	if path == in.BigPath && path != "" {
+		return c09Pad("init:" + path)
+	}
+	return "init:" + path
+}
+
+// expanded returns a copy whose values for BigPath are padded (the input stays compact).
+func (in *c09In) expanded() *c09In {
+	if in.BigPath == "" {
+		return in
+	}
+	out := &c09In{Initial: in.Initial, BigPath: in.BigPath}
+	for _, ops := range in.Clients {
+		cp := append([]c09Op(nil), ops...)
+		for i := range cp {
+			if cp[i].Path == in.BigPath && cp[i].Val != "" {
+				cp[i].Val = c09Pad(cp[i].Val)
+			}
+		}
+		out.Clients = append(out.Clients, cp)
+	}
+	return out
+}
+
+// q quotes a value for a message (big values abbreviated).
+func q(v string) string {
+	if len(v) > 60 {
+		return fmt.Sprintf("%q...(%d bytes, ends %q)", v[:40], len(v), v[len(v)-8:])
+	}
+	return fmt.Sprintf("%q", v)
 }
 
 var c09Files = []string{"d1/f1", "d1/f2", "d2/f1", "d2/f2", "top"}
@@ -48,6 +89,9 @@ func c09Gen(r *Rand, tier string) interface{} {
 		if r.Chance(1, 2) {
 			in.Initial = append(in.Initial, f)
 		}
+	}
+	if r.Chance(1, 6) {
+		in.BigPath = c09Files[r.Intn(len(c09Files))]
 	}
 	nc := 2 + r.Intn(3)
 	val := 0
@@ -99,7 +143,7 @@ type c09Event struct {
 }
 
 func c09Run(inI interface{}, env *Env) *Failure {
-	in := inI.(*c09In)
+	in := inI.(*c09In).expanded()
 	var events []c09Event
 	var final map[string]string
 	var walkClause, walkMsg string
@@ -115,7 +159,7 @@ func c09Run(inI interface{}, env *Env) *Failure {
 			}
 		}
 		for _, f := range in.Initial {
-			if err := fs.WriteFile(f, []byte("init:"+f), filesystem.DefaultUnixFileMode); err != nil {
+			if err := fs.WriteFile(f, []byte(in.initVal(f)), filesystem.DefaultUnixFileMode); err != nil {
 				panic(harnessTrouble{err.Error()})
 			}
 		}
@@ -152,7 +196,7 @@ func c09Run(inI interface{}, env *Env) *Failure {
 						rd, err := fs.Reader(op.Path)
 						ev.err = err
 						if err == nil {
-							ev.data, ev.err = readChunked(rd, []int{3})
+							ev.data, ev.err = readChunked(rd, []int{3, 32768}) // 3 bytes, then the rest in big pieces
 							if cerr := rd.Close(); ev.err == nil {
 								ev.err = cerr
 							}
@@ -240,9 +284,9 @@ func c09Run(inI interface{}, env *Env) *Failure {
 				src = &ws[i]
 			}
 		}
-		isInit := initial[path] && got == "init:"+path
+		isInit := initial[path] && got == in.initVal(path)
 		if src == nil && !isInit {
-			return failf("C09/torn-read", ev.op.Kind, "client %d: %s(%q) returned %q, which is not a complete value ever written to that path (written: %v)", ev.client, ev.op.Kind, path, got, c09Vals(ws))
+			return failf("C09/torn-read", ev.op.Kind, "client %d: %s(%q) returned %s, which is not a complete value ever written to that path (written: %v)", ev.client, ev.op.Kind, path, q(got), c09Vals(ws))
 		}
 		if removedAncestor(path) {
 			continue
@@ -251,7 +295,7 @@ func c09Run(inI interface{}, env *Env) *Failure {
 		srcRet := 0 // initial value: "written" before everything
 		if src != nil {
 			if src.call > ev.ret {
-				return failf("C09/read-from-the-future", ev.op.Kind, "client %d read %q from %q before that value's write began", ev.client, got, path)
+				return failf("C09/read-from-the-future", ev.op.Kind, "client %d read %s from %q before that value's write began", ev.client, q(got), path)
 			}
 			srcRet = src.ret
 		}
@@ -262,7 +306,7 @@ func c09Run(inI interface{}, env *Env) *Failure {
 			}
 			// w began after the source write finished and finished before the read began => source value is stale
 			if w.call > srcRet && w.ret < ev.call {
-				return failf("C09/stale-read", ev.op.Kind, "client %d: %s(%q) returned %q although the write of %q had completed before the read began (and after %q was written)", ev.client, ev.op.Kind, path, got, w.op.Val, got)
+				return failf("C09/stale-read", ev.op.Kind, "client %d: %s(%q) returned %s although the write of %s had completed before the read began (and after %s was written)", ev.client, ev.op.Kind, path, q(got), q(w.op.Val), q(got))
 			}
 		}
 	}
@@ -280,7 +324,7 @@ func c09Run(inI interface{}, env *Env) *Failure {
 			continue
 		}
 		cur = strings.TrimPrefix(cur, "F:")
-		okVal := initial[path] && cur == "init:"+path && len(ws) == 0
+		okVal := initial[path] && cur == in.initVal(path) && len(ws) == 0
 		for _, w := range ws {
 			if w.op.Val == cur {
 				okVal = true
@@ -288,7 +332,7 @@ func c09Run(inI interface{}, env *Env) *Failure {
 		}
 		// copies may also have created the node
 		if !okVal && !strings.HasPrefix(path, "copy") {
-			return failf("C09/final-value-not-written", "final", "%q ends with %q which is none of the values written to it (%v)", path, cur, c09Vals(ws))
+			return failf("C09/final-value-not-written", "final", "%q ends with %s which is none of the values written to it (%v)", path, q(cur), c09Vals(ws))
 		}
 		// (a) single-writer paths end with that client's last write
 		clients := map[int]bool{}
@@ -303,7 +347,7 @@ func c09Run(inI interface{}, env *Env) *Failure {
 				}
 			}
 			if cur != last.op.Val {
-				return failf("C09/own-write-lost", "final", "only client %d wrote %q; its last value was %q but the file ends with %q", last.client, path, last.op.Val, cur)
+				return failf("C09/own-write-lost", "final", "only client %d wrote %q; its last value was %s but the file ends with %s", last.client, path, q(last.op.Val), q(cur))
 			}
 		}
 	}
@@ -311,7 +355,7 @@ func c09Run(inI interface{}, env *Env) *Failure {
 	// one of the complete values ever written to (or initially in) some shared file
 	complete := map[string]bool{}
 	for _, f := range in.Initial {
-		complete["init:"+f] = true
+		complete[in.initVal(f)] = true
 	}
 	for _, ws := range writes {
 		for _, w := range ws {
@@ -321,7 +365,7 @@ func c09Run(inI interface{}, env *Env) *Failure {
 	for _, p := range sortedNamesS(final) {
 		if strings.HasPrefix(p, "copy") && strings.HasPrefix(final[p], "F:") {
 			if v := strings.TrimPrefix(final[p], "F:"); !complete[v] {
-				return failf("C09/torn-copy", "final", "%q (made by Copy) holds %q, which is not a complete value ever written to any source file", p, v)
+				return failf("C09/torn-copy", "final", "%q (made by Copy) holds %s, which is not a complete value ever written to any source file", p, q(v))
 			}
 		}
 	}
@@ -345,7 +389,7 @@ func privatePaths(in *c09In) []string {
 func c09Vals(ws []c09Event) []string {
 	var out []string
 	for _, w := range ws {
-		out = append(out, w.op.Val)
+		out = append(out, q(w.op.Val))
 	}
 	sort.Strings(out)
 	return out
@@ -355,7 +399,7 @@ func c09Shrink(inI interface{}) []interface{} {
 	in := inI.(*c09In)
 	var out []interface{}
 	cp := func() *c09In {
-		c := &c09In{Initial: append([]string(nil), in.Initial...)}
+		c := &c09In{Initial: append([]string(nil), in.Initial...), BigPath: in.BigPath}
 		for _, ops := range in.Clients {
 			c.Clients = append(c.Clients, append([]c09Op(nil), ops...))
 		}
@@ -391,7 +435,7 @@ func init() {
 		New:    func() interface{} { return &c09In{} },
 		Run:    c09Run,
 		Shrink: c09Shrink,
-		Rule: "one case = 2-4 clients x 1-6 operations (WriteFile with globally unique values, two-chunk Writer, ReadFile, Reader, MkdirAll, Copy, Remove, RemoveAll, ReadDir, IsExist) on 5 shared files in 2 shared directories (+ private files) x one seeded schedule; invoke/return stamped with a global event counter; oracle: regular register per file, own-write retention, unique names, complete values, no panic/deadlock, happens-before probe on the directory index maps; " +
+		Rule: "one case = 2-4 clients x 1-6 operations (WriteFile with globally unique values, two-chunk Writer, ReadFile, Reader, MkdirAll, Copy, Remove, RemoveAll, ReadDir, IsExist) on 5 shared files in 2 shared directories (+ private files; in one run of six every value of one file is 65-72 KB) x one seeded schedule; invoke/return stamped with a global event counter; oracle: regular register per file, own-write retention, unique names, complete values, no panic/deadlock, happens-before probe on the directory index maps; " +
 			"non-trivial = a scheduling decision with more than one runnable task; distinct = distinct (input, decision sequence)",
 		Real:        []string{"filesystem/filespace/memfs (Filespace, Dir, File, FileHandler)"},
 		Stub:        []string{"sync.RWMutex -> simrt", "scheduler, clock"},
